@@ -1,1 +1,44 @@
-"""C16 parser-level fuzz targets (filled in with the C16 check)."""
+"""C16 parser-level fuzz target: Banner.parse / Software.parse with the round-trip oracle inside."""
+import re
+
+from fuzz.targets import register
+
+GRAMMAR = re.compile(r'^SSH-(\d)\.(\d+)-([^ ]*)(?: +(.*))?$')
+
+
+@register('c16_banner')
+def c16_banner(data):
+    from ssh_audit.banner import Banner
+    from ssh_audit.software import Software
+    fails = []
+    line = data.decode('utf-8', 'replace')
+    if '\n' in line or '\r' in line:
+        return fails
+    try:
+        b = Banner.parse(line)
+    except Exception as e:
+        return [['fuzz-banner-parse-raised:%s' % type(e).__name__, repr(line)[:200]]]
+    clean = ''.join(c if 32 <= ord(c) <= 126 else '?' for c in line)
+    m = GRAMMAR.match(clean)
+    multi = re.match(r'^SSH-\d\.\s*?\d+-SSH-\d\.', clean) is not None
+    if m and b is None:
+        fails.append(['fuzz-grammar-line-rejected', repr(line)[:200]])
+    if b is None:
+        return fails
+    if any(not (32 <= ord(c) <= 126) for c in str(b)):
+        fails.append(['fuzz-unsanitised-character-shown', repr(str(b))[:200]])
+    if b.valid_ascii != (clean == line):
+        fails.append(['fuzz-non-conforming-flag', repr(line)[:200]])
+    if m and not multi:
+        maj, mino, sw, com = m.groups()
+        com = re.sub(r' +', ' ', com.strip()) if com is not None and com.strip() else None
+        if (tuple(b.protocol), b.software, b.comments) != ((int(maj), int(mino)), sw, com):
+            fails.append(['fuzz-parts', '%r -> %r' % (line[:120], (b.protocol, b.software, b.comments))])
+    b2 = Banner.parse(str(b))
+    if b2 is None or (b2.protocol, b2.software, b2.comments) != (b.protocol, b.software, b.comments):
+        fails.append(['fuzz-render-parse-roundtrip', '%r -> %r' % (line[:120], str(b)[:120])])
+    try:
+        Software.parse(b)
+    except Exception as e:
+        fails.append(['fuzz-software-parse-raised:%s' % type(e).__name__, repr(line)[:200]])
+    return fails
